@@ -12,9 +12,14 @@
    from it — the copy-on-write contract under which "modified independently" is read
    (DESIGN.md §5 C03); SetVersion, WriteDirty, Hash and further snapshots of it remain allowed.
    [xrun]/[xstep] add ClearPrefixLimit (deleteNodesLimit) to the steps; the theorems are stated
-   for both kinds of histories. *)
+   for both kinds of histories.
+   [yrun]/[ystep] (ModelY.v) add child tries: a child trie is one more handle; NewTrie
+   (NewEmptyTrie, the child trie PutIntoChild starts from), SnapCopy (the trie Snapshot() makes of
+   every child trie: next generation, a COPY of the root node, the parent's version) and AdoptVer
+   (child.version = t.version).  Snapshot() of a trie with child tries is
+   [snapshot_with_children], PutIntoChild is [put_into_child]: lists of such steps. *)
 From Common Require Import Bytes Blake2b.
-From C03 Require Import Model Proofs Main MainX.
+From C03 Require Import Model ModelY Proofs ProofsY Main MainX MainY.
 
 (* No step of a fork history changes what is seen through any handle other than the one it
    mutates; steps that mutate no handle (Snapshot, SetVersion — raising the version included —,
@@ -63,6 +68,52 @@ Theorem C03_snapshot_view_with_limit :
   view H fg (xrun H true fd (firstn (S n) hist) init_state) (length (s_hs before)) = view H fg before i.
 Proof. exact xsnapshot_view. Qed.
 Print Assumptions C03_snapshot_view_with_limit.
+
+(* ---- child tries (the whole of InMemoryTrie.Snapshot) ----
+   The same for histories in which tries have child tries: no step changes the view through a
+   handle (main trie or child trie) other than the one it mutates; in particular nothing done to
+   a snapshot, or to a child trie of a snapshot, shows through the source trie or its child tries. *)
+Theorem C03_isolation_child_tries :
+  forall (H : list byte -> list byte) (fd fg : bool) (hist : list ystep),
+  yfrozen_parents hist = true ->
+  forall n s, nth_error hist n = Some s ->
+  forall j, ymutated_handle s <> Some j ->
+    j < length (s_hs (yrun H true fd (firstn n hist) init_state)) ->
+    view H fg (yrun H true fd (firstn (S n) hist) init_state) j
+    = view H fg (yrun H true fd (firstn n hist) init_state) j.
+Proof. exact yisolation. Qed.
+Print Assumptions C03_isolation_child_tries.
+
+(* The trie Snapshot() builds for a child trie (a copy of the child's root node) shows exactly what
+   the child trie of the source shows; so does the root-sharing snapshot of the main trie. *)
+Theorem C03_child_snapshot_view :
+  forall (H : list byte -> list byte) (fd fg : bool) (hist : list ystep),
+  yfrozen_parents hist = true ->
+  (forall n i v, nth_error hist n = Some (SnapCopy i v) ->
+     let before := yrun H true fd (firstn n hist) init_state in
+     forall hd r, nth_error (s_hs before) i = Some hd -> h_root hd = Some r ->
+     view H fg (yrun H true fd (firstn (S n) hist) init_state) (length (s_hs before)) = view H fg before i)
+  /\ (forall n i, nth_error hist n = Some (Y (Core (Snap i))) ->
+     let before := yrun H true fd (firstn n hist) init_state in
+     i < length (s_hs before) ->
+     view H fg (yrun H true fd (firstn (S n) hist) init_state) (length (s_hs before)) = view H fg before i).
+Proof. intros H fd fg hist Hf. split; [exact (ysnapcopy_view H fd fg hist Hf) | exact (ysnapshot_view H fd fg hist Hf)]. Qed.
+Print Assumptions C03_child_snapshot_view.
+
+(* non-vacuity: a trie with a child trie is snapshotted, the snapshot is raised to V1 and writes
+   into its child trie; sources unchanged, copies diverge *)
+Example C03_child_tries_nonvacuous :
+  yfrozen_parents child_hist = true
+  /\ (let st := yrun blake2b_256 true false child_hist init_state in
+      let st0 := yrun blake2b_256 true false (firstn 16 child_hist) init_state in
+      length (s_hs st) = 4
+      /\ view blake2b_256 false st 0 = view blake2b_256 false st0 0
+      /\ view blake2b_256 false st 1 = view blake2b_256 false st0 1
+      /\ view blake2b_256 false st0 3 = view blake2b_256 false st0 1
+      /\ view blake2b_256 false st 3 <> view blake2b_256 false st 1
+      /\ view blake2b_256 false st 2 <> view blake2b_256 false st 0
+      /\ root_of st 1 = child_root2 /\ root_of st 3 = child_root3 /\ child_root3 <> child_root2).
+Proof. exact child_hist_nonvacuous. Qed.
 
 (* The pinned code (MustBeHashed and SetDirty applied to the shared node before
    prepForMutation) violated the property: raising a snapshot's version and re-putting an
